@@ -12,7 +12,7 @@ LEAN_MODULES = ["ShootVerif.Props.C11", "ShootVerif.Props.C11Facts"]
 USES_FACTS = True
 DRIVER = "shootmodel_new"
 MANIFEST = dict(
-    text="Lean 4 theorems over a model of -json (makeJson of json.go, shadow struct / MarshalJSON / UnmarshalJSON of constructor.tmpl): for EVERY struct tree, tagcase and set of promoted accessors the generator's JSON list equals the property's key list — one key per visible exported leaf and per unexported leaf with an own (C03 table) or promoted getter/setter, named by explicit tag or tagcase(name) (C11_keys); for every key list with distinct keys and names Unmarshal(Marshal(v)) restores every exported-or-settable field that is exported or has a getter and yields zero otherwise (C11_roundtrip, C11_no_getter_zero); Unmarshal touches nothing else (C11_unmarshal_frame). Tied to the code by generating struct packages (C03 shapes, explicit json tags, 4 tagcases x 5 name forms, embedded shoot types), running the rebuilt `shoot new -json [-getset]`, compiling, and executing encoding/json Marshal on sentinel-filled values and Unmarshal of a crafted document, reading every leaf back. Since the second seeding round: the stack scan of makeNew that fills AllocMap is modelled (Model/AllocMap.lean) and proved to pair every field with exactly the embedded pointer structs on ITS way (C11_alloc_chain, C11_alloc_lookup); execution also marshals values with each embedded pointer nil in turn (mpart), runs multi-type invocations with a companion type processed first, models `,omitempty`, and includes structs that embed a pointer to themselves. Since round 7: json tags on the fields of embedded structs (promoted fields; defect repaired by cd682d2 and folded into model and spec), exported field names that are not PascalCase (defect repaired by bf10dd1), and decoding into a USED receiver (every leaf dirtied, maps holding other keys) with the whole document and with every second key left out: each governed leaf must end up as in a fresh receiver, every other leaf keeps its content (umdirty / umdirtyp).",
+    text="Lean 4 theorems over a model of -json (makeJson of json.go, shadow struct / MarshalJSON / UnmarshalJSON of constructor.tmpl): for EVERY struct tree, tagcase and set of promoted accessors the generator's JSON list equals the property's key list — one key per visible exported leaf and per unexported leaf with an own (C03 table) or promoted getter/setter, named by explicit tag or tagcase(name) (C11_keys); for every key list with distinct keys and names Unmarshal(Marshal(v)) restores every exported-or-settable field that is exported or has a getter and yields zero otherwise (C11_roundtrip, C11_no_getter_zero); Unmarshal touches nothing else (C11_unmarshal_frame). `,omitempty` and the name part of a tag are inside the model (marshalO / unmarshalO, Spec/Json.lean; the driver's marshal line is computed through marshalO): C11_roundtrip_omitempty proves the round trip for every key list when an omitted entry's value is the zero value (the hypothesis names the one exception, non-nil empty slices and maps), C11_omitempty_conservative that the refined model is the plain one without options; C11_shadow_spelling (regenerated table of constructor.tmpl) and C11_json_guard (regenerated call-site table) are proof-side anchors. Tied to the code by generating struct packages (C03 shapes, explicit json tags, 4 tagcases x 5 name forms, embedded shoot types), running the rebuilt `shoot new -json [-getset]`, compiling, and executing encoding/json Marshal on sentinel-filled values and Unmarshal of a crafted document, reading every leaf back. Since the second seeding round: the stack scan of makeNew that fills AllocMap is modelled (Model/AllocMap.lean) and proved to pair every field with exactly the embedded pointer structs on ITS way (C11_alloc_chain, C11_alloc_lookup); execution also marshals values with each embedded pointer nil in turn (mpart), runs multi-type invocations with a companion type processed first, models `,omitempty`, and includes structs that embed a pointer to themselves. Since round 7: json tags on the fields of embedded structs (promoted fields; defect repaired by cd682d2 and folded into model and spec), exported field names that are not PascalCase (defect repaired by bf10dd1), and decoding into a USED receiver (every leaf dirtied, maps holding other keys) with the whole document and with every second key left out: each governed leaf must end up as in a fresh receiver, every other leaf keeps its content (umdirty / umdirtyp).",
     note="Lean kernel + standard axioms; encoding/json on the shadow struct is external (validated by execution); promoted accessor sets are inputs (model applied to the embedded type first); `,omitempty` is modelled (an empty value is left out), other tag options and \"-\" are outside the asserted region.",
     technique="Lean 4 proof (filterMap correspondence generator list vs leaves; assoc-list round trip) + differential correspondence with executed Marshal/Unmarshal",
     design="5/C11")
